@@ -107,6 +107,7 @@ var theT *testing.T
 
 // execute runs one scenario under one tape.
 func execute(p *PropDef, tape *simrt.Tape, tier, variant string) *Outcome {
+	raceLogTake() // drop anything reported outside a run
 	simos.Reset()
 	simldb.Reset()
 	for i := 0; i < 64; i++ {
@@ -147,6 +148,10 @@ func execute(p *PropDef, tape *simrt.Tape, tier, variant string) *Outcome {
 		for _, pn := range res.Panics {
 			c.Fail(p.ID+"/panic/"+panicSite(pn.Stack), "panic in task %s (node %d): %s\ncontext: %s\n%s", pn.Task, pn.Node, pn.Value, c.Context, trimStack(pn.Stack))
 		}
+	}
+	for _, rr := range raceLogTake() {
+		c.Fail(p.ID+"/race/"+rr.Key, "the race detector reports an unsynchronised access pair under this schedule:\n%s", rr.Text)
+		c.Probe("race_reports")
 	}
 	if p.Post != nil && out.HarnessErr == "" {
 		func() {
@@ -430,6 +435,7 @@ func watchdog(limit time.Duration, what *string) chan struct{} {
 func workerMain(t *testing.T) {
 	theT = t
 	setupLogging()
+	raceLogInit()
 	if rp := os.Getenv("VERIF_REPLAY"); rp != "" {
 		replayMain(t, rp)
 		return
